@@ -380,11 +380,11 @@ type typedText struct {
 var typedTexts = map[string][]typedText{
 	"bool": {{"true", true}, {"false", true}, {"True", true}, {"FALSE", true}, {"yes", true}, {"Yes", true}, {"NO", true}, {"no", true}, {"on", true}, {"Off", true}, {"y", true}, {"N", true},
 		{"maybe", false}, {"1", false}, {"2", false}, {"", false}, {"truee", false}, {"nope", false}, {"t", false}},
-	"int": {{"0", true}, {"1", true}, {"7", true}, {"42", true}, {"2147483648", true}, {"4294967296", true}, {"+5", true}, {"-1", true}, {"007", true}, {"0440", true}, {"0o17", true}, {"0x10", true}, {"1_000", true}, {"0b11", true},
+	"int": {{"0", true}, {"1", true}, {"7", true}, {"42", true}, {"2147483648", true}, {"4294967296", true}, {"+5", true}, {"-1", true}, {"007", true}, {"0440", true}, {"0o17", true}, {"0x10", true}, {"1_000", true}, {"0b11", true}, {"0b+1", true},
 		{"abc", false}, {"1.5", false}, {"", false}, {"99999999999999999999", false}, {"1e3", false}, {"7s", false}, {"- 1", false}},
 	"uint": {{"0", true}, {"1", true}, {"7", true}, {"42", true}, {"2147483648", true}, {"4294967296", true}, {"+5", true}, {"007", true}, {"0440", true}, {"0o17", true}, {"0x10", true}, {"1_000", true},
 		{"abc", false}, {"1.5", false}, {"", false}, {"99999999999999999999", false}, {"-1", false}, {"1e3", false}},
-	"float": {{"0.5", true}, {"1", true}, {"2", true}, {"1.25", true}, {".5", true}, {"1e0", true}, {"+0.75", true}, {"0.1", true}, {"1_0.5", true}, {"0x2", true}, {"010", true},
+	"float": {{"0.5", true}, {"1", true}, {"2", true}, {"1.25", true}, {".5", true}, {"1e0", true}, {"+0.75", true}, {"0.1", true}, {"1_0.5", true}, {"0x2", true}, {"010", true}, {"0b+1", true}, {"0o+7", true},
 		{"abc", false}, {"1.5.2", false}, {"", false}, {"1,5", false}, {"half", false}},
 	"duration": {{"10s", true}, {"1m30s", true}, {"1h", true}, {"500ms", true}, {"1.5s", true}, {"0", true}, {"0s", true}, {"2h45m", true}, {"1000000us", true},
 		{"5", false}, {"abc", false}, {"10x", false}, {"", false}, {"1 s", false}, {"s", false}},
@@ -726,6 +726,7 @@ func runC08Typed(ctx *core.Ctx) {
 }
 
 func runC08Loads(ctx *core.Ctx) {
+	runC08Names(ctx)
 	runC08Typed(ctx)
 	runC08Meta(ctx)
 }
